@@ -77,8 +77,10 @@ def create_matching_kernel(source_psf, target_psf, *, window=None):
         The output matching kernel is normalized such that it sums to 1.
     """
     # inputs are copied so that they are not changed when normalizing
-    source_psf = np.copy(np.asanyarray(source_psf))
-    target_psf = np.copy(np.asanyarray(target_psf))
+    # (as float arrays, so that the in-place normalization also works
+    # for integer inputs)
+    source_psf = np.array(source_psf, dtype=float)
+    target_psf = np.array(target_psf, dtype=float)
 
     if source_psf.shape != target_psf.shape:
         raise ValueError('source_psf and target_psf must have the same shape '
